@@ -181,3 +181,52 @@ sepi!(sep_i32_iltc_5, i32, 5, 7, true, true, true, true);
 sepi!(sep_u8_ilt_5, u8, 5, 7, true, true, true, false);
 sepi!(sep_i64_itc_5, i64, 5, 7, true, false, true, true);
 sepi!(sep_u64_lc_5, u64, 5, 7, false, true, false, true);
+
+/// C11 under a separator format: partial and complete parsers agree (prefix re-parse included).
+macro_rules! sep_rel {
+    ($name:ident, $f:ident, $n:expr, $u:literal, $i:expr, $l:expr, $t:expr, $c:expr) => {
+        #[kani::proof]
+        #[kani::unwind($u)]
+        #[kani::stub(lexical_parse_float::parse::moderate_path, stub_moderate)]
+        #[kani::stub(lexical_parse_float::parse::slow_path, stub_slow)]
+        #[kani::stub(lexical_parse_float::number::Number::try_fast_path, stub_fast)]
+        fn $name() {
+            const FMT: u128 = fmt($i, $l, $t, $c);
+            const OPTS: ParseFloatOptions = ParseFloatOptions::new();
+            let buf: [u8; $n] = kani::any();
+            let len: usize = kani::any();
+            kani::assume(len <= $n);
+            let mut k = 0;
+            while k < $n {
+                kani::assume(in_alphabet(buf[k]));
+                k += 1;
+            }
+            let s = &buf[..len];
+            let c = lc::parse_with_options::<$f, FMT>(s, &OPTS);
+            let p = lc::parse_partial_with_options::<$f, FMT>(s, &OPTS);
+            match (c, p) {
+                (Ok(v), Ok((w, n))) => {
+                    assert!(n == len, "complete accepted but partial stopped early");
+                    assert!(v.to_bits() == w.to_bits(), "complete and partial values differ");
+                },
+                (Ok(_), Err(_)) => assert!(false, "complete accepted, partial rejected"),
+                (Err(_), Ok((_, n))) => assert!(n != len, "partial consumed everything, complete rejected"),
+                (Err(_), Err(_)) => {},
+            }
+            if let Ok((w, n)) = p {
+                if n > 0 && n < len {
+                    match lc::parse_with_options::<$f, FMT>(&s[..n], &OPTS) {
+                        Ok(v2) => assert!(v2.to_bits() == w.to_bits(), "prefix re-parse value differs"),
+                        Err(_) => assert!(false, "prefix accepted by the partial parser is rejected by the complete parser"),
+                    }
+                    kani::cover!(s[n - 1] == b'_', "consumed prefix ends with a separator");
+                }
+            }
+            kani::cover!(c.is_ok() && len == $n, "complete accepts");
+        }
+    };
+}
+sep_rel!(seprel_f64_t_4, f64, 4, 6, false, false, true, false);
+sep_rel!(seprel_f64_iltc_4, f64, 4, 6, true, true, true, true);
+sep_rel!(seprel_f64_l_4, f64, 4, 6, false, true, false, false);
+sep_rel!(seprel_f64_i_4, f64, 4, 6, true, false, false, false);
